@@ -295,6 +295,10 @@ type backend struct {
 	// after each call; the stored contents must not move
 	held    [][]byte
 	aliased bool
+	// argument structs are the caller's: the same *KVPartial serves every walk of a history that
+	// asks for the same window, and must come back from each call as it went in
+	partials   map[[3]uint64]*pisces.KVPartial
+	argMutated string
 }
 
 // in makes the caller's slice for a call: the bytes of v with spare capacity behind them.
@@ -419,7 +423,24 @@ func (b *backend) exec(o *op) string {
 			},
 		}
 		var err error
-		p := &pisces.KVPartial{Offset: o.off, N: o.n, Desc: o.desc}
+		pk := [3]uint64{o.off, o.n, 0}
+		if o.desc {
+			pk[2] = 1
+		}
+		if b.partials == nil {
+			b.partials = map[[3]uint64]*pisces.KVPartial{}
+		}
+		p := b.partials[pk]
+		if p == nil {
+			p = &pisces.KVPartial{Offset: o.off, N: o.n, Desc: o.desc}
+			b.partials[pk] = p // reused, as it is, by the next walk with this window
+		}
+		before := *p
+		defer func() {
+			if *p != before && b.argMutated == "" {
+				b.argMutated = fmt.Sprintf("KVPartial%+v came back as %+v", before, *p)
+			}
+		}()
 		switch o.name {
 		case "walk":
 			err = kv.Walk(it)
@@ -849,6 +870,14 @@ func (w *world) runHistory(ops []string) ([]outs, *failure) {
 				who string
 				b   *backend
 			}{{"mem", w.mem[o.store]}, {"sql", w.sql[o.store]}} {
+				if p.b != nil && p.b.argMutated != "" {
+					f = &failure{
+						key: fmt.Sprintf("%s-argument-struct-mutated:%s", p.who, opName(l)),
+						desc: fmt.Sprintf("%s backend: %q wrote to the caller's argument struct (%s); a caller that reuses it gets a different window",
+							p.who, l, p.b.argMutated),
+					}
+					break
+				}
 				if p.b != nil && p.b.aliased {
 					f = &failure{
 						key: fmt.Sprintf("%s-caller-slice-aliased:%s", p.who, opName(l)),
